@@ -47,6 +47,7 @@ type c10Rec struct {
 	Size     int    `json:"size"`
 	Mode     string `json:"mode"`  // pre | predl | det | timer | file
 	J        int    `json:"j"`     // det: cancel after the j-th operation; timer: microseconds of delay
+	Delay    int    `json:"delay"` // gap: microseconds between the j-th operation and the cancellation
 	N        int    `json:"n"`     // operations of the uncancelled read
 	Phase    string `json:"phase"` // reader phase in which the cancellation fell ("" when it fell after the read)
 	Last     string `json:"last"`  // reader phase of the last input operation started after the cancellation
@@ -111,19 +112,29 @@ func threadCPU(tid int) int64 {
 }
 
 type cancelRS struct {
-	rs        *bytes.Reader
-	ops       int64
-	cancelAt  int64 // cancel after this many operations (0: never)
-	cancel    func()
-	cancelled atomic.Bool
-	after     atomic.Int64
-	phase     string
-	last      string
-	phases    []string // baseline mode: phase of every operation
-	record    bool
+	rs          *bytes.Reader
+	ops         int64
+	cancelAt    int64 // cancel after this many operations (0: never)
+	cancel      func()
+	cancelled   atomic.Bool
+	after       atomic.Int64
+	phase       string
+	last        string
+	tid         int     // record mode: thread whose CPU clock is sampled around every operation
+	opStart     []int64 // record mode: CPU clock when operation i started / ended
+	opEnd       []int64
+	gapAt       int64  // gap mode: start the cancellation timer after this many operations
+	startTimer  func() // gap mode
+	cpuAtCancel int64
+	tAtCancel   int64
+	phases      []string // baseline mode: phase of every operation
+	record      bool
 }
 
 func (r *cancelRS) pre() {
+	if r.record && r.tid != 0 {
+		r.opStart = append(r.opStart, threadCPU(r.tid))
+	}
 	if r.cancelled.Load() {
 		if n := r.after.Add(1); n&(n-1) == 0 || n%64 == 0 { // sampled: every power of two and every 64th
 			r.last = callerPhase()
@@ -140,6 +151,15 @@ func (r *cancelRS) post() {
 		r.phase = callerPhase()
 		r.cancelled.Store(true)
 		r.cancel()
+		// the reader runs on a goroutine locked to its OS thread: everything it burns from here on is after the cancellation
+		r.cpuAtCancel = threadCPU(syscall.Gettid())
+		r.tAtCancel = time.Now().UnixNano()
+	}
+	if r.gapAt > 0 && r.ops == r.gapAt && r.startTimer != nil {
+		r.startTimer()
+	}
+	if r.record && r.tid != 0 {
+		r.opEnd = append(r.opEnd, threadCPU(r.tid))
 	}
 }
 
@@ -196,7 +216,12 @@ type c10Base struct {
 	digest  string // digest of the document, or "err:" + message
 	fullUs  int
 	fullCpu int
+	gaps    []c10Gap // the longest stretches of computation without input, longest first
 }
+
+// c10Gap is a stretch of the uncancelled read between two input operations (or after the last one) in which the
+// reader only computes: after operation j it burns us microseconds of CPU before it touches the input again.
+type c10Gap struct{ j, us int }
 
 func c10Conf(d *c10Doc) *model.Configuration {
 	conf := model.NewDefaultConfiguration()
@@ -219,12 +244,13 @@ func c10Baseline(d *c10Doc) c10Base {
 	bestCpu := int64(1<<62 - 1)
 	tid := syscall.Gettid() // the calling goroutine is locked to its thread
 	for i := 0; i < 3; i++ {
-		r := &cancelRS{rs: bytes.NewReader(d.Data), record: i == 0}
+		r := &cancelRS{rs: bytes.NewReader(d.Data), record: i == 0, tid: tid}
 		t0 := time.Now()
 		c0 := threadCPU(tid)
 		ctx, err := pdfcpu.ReadWithContext(context.Background(), r, c10Conf(d))
 		el := time.Since(t0)
-		cel := threadCPU(tid) - c0
+		cEnd := threadCPU(tid)
+		cel := cEnd - c0
 		if i > 0 && el < best { // run 0 pays for the phase recording
 			best = el
 		}
@@ -235,6 +261,19 @@ func c10Baseline(d *c10Doc) c10Base {
 			b.n = int(r.ops)
 			b.phases = r.phases
 			b.digest = outcomeDigest(ctx, err)
+			for k := range r.opEnd {
+				next := cEnd
+				if k+1 < len(r.opStart) {
+					next = r.opStart[k+1]
+				}
+				if us := int((next - r.opEnd[k]) / 1000); us >= 20000 {
+					b.gaps = append(b.gaps, c10Gap{k + 1, us})
+				}
+			}
+			sort.Slice(b.gaps, func(x, y int) bool { return b.gaps[x].us > b.gaps[y].us })
+			if len(b.gaps) > 3 {
+				b.gaps = b.gaps[:3]
+			}
 		} else if dg := outcomeDigest(ctx, err); dg != b.digest {
 			h.Die("c10: uncancelled read of %s is not deterministic: %s vs %s", d.Name, dg, b.digest)
 		}
@@ -256,8 +295,8 @@ func trimErr(err error) string {
 }
 
 // c10Run performs one read with a cancellation schedule and classifies the result.
-func c10Run(d *c10Doc, b *c10Base, mode string, j int) (rec c10Rec) {
-	rec = c10Rec{Doc: d.Name, Class: d.Class, Size: len(d.Data), Mode: mode, J: j, N: b.n, FullUs: b.fullUs, FullCpu: b.fullCpu}
+func c10Run(d *c10Doc, b *c10Base, mode string, j, delay int) (rec c10Rec) {
+	rec = c10Rec{Doc: d.Name, Class: d.Class, Size: len(d.Data), Mode: mode, J: j, Delay: delay, N: b.n, FullUs: b.fullUs, FullCpu: b.fullCpu}
 	var c context.Context
 	var cancel func()
 	switch mode {
@@ -280,9 +319,14 @@ func c10Run(d *c10Doc, b *c10Base, mode string, j int) (rec c10Rec) {
 		r.cancelled.Store(true)
 	case "det":
 		r.cancelAt = int64(j)
-	case "timer":
+		tid = syscall.Gettid() // deterministic runs happen on worker goroutines locked to their threads
+	case "timer", "gap":
 		tid = syscall.Gettid() // timer runs happen on a goroutine locked to its thread
-		timer = time.AfterFunc(time.Duration(j)*time.Microsecond, func() {
+		wait := time.Duration(j) * time.Microsecond
+		if mode == "gap" {
+			wait = time.Hour // armed by the j-th operation
+		}
+		timer = time.AfterFunc(wait, func() {
 			// everything is sampled after cancel() returned: the canceller may be descheduled at any point, and
 			// operations or time before the context is really cancelled must not be charged to the reader
 			cancel()
@@ -291,6 +335,10 @@ func c10Run(d *c10Doc, b *c10Base, mode string, j int) (rec c10Rec) {
 			r.cancelled.Store(true)
 			close(cbDone)
 		})
+	}
+	if mode == "gap" {
+		r.gapAt = int64(j)
+		r.startTimer = func() { timer.Reset(time.Duration(delay) * time.Microsecond) }
 	}
 	var ctx *model.Context
 	var err error
@@ -320,7 +368,11 @@ func c10Run(d *c10Doc, b *c10Base, mode string, j int) (rec c10Rec) {
 		rec.Fired = true
 	case "det":
 		rec.Fired = r.cancelled.Load()
-	case "timer":
+		if rec.Fired && r.cpuAtCancel > 0 && cpuEnd >= r.cpuAtCancel {
+			rec.AfterCpu = int((cpuEnd - r.cpuAtCancel) / 1000)
+			rec.AfterUs = int((tEnd - r.tAtCancel) / 1000)
+		}
+	case "timer", "gap":
 		// the read saw the cancellation if it returned the context's error, or if cancel() had returned before the read did
 		sawCancel := err != nil && c.Err() != nil && errors.Is(err, c.Err())
 		if tc := tCancel.Load(); tc != 0 && (tc <= tEnd || sawCancel) {
@@ -408,6 +460,15 @@ func c10Docs(repo string, quick bool, seed int64) []*c10Doc {
 		&c10Doc{Name: "gen:broken-xref", Data: manyObjects(3, 200).broken(), Class: "repair"},
 		&c10Doc{Name: "gen:shifted-xref", Data: manyObjects(3, 200).shifted(1), Class: "repair"},
 	)
+	// one very large object: the reader buffers it and then works on it in single calls that touch no input
+	nlit := 120_000
+	if !quick {
+		nlit = 250_000
+	}
+	nlit = h.EnvInt("C10_NLIT", nlit)
+	for _, kind := range []string{"literals", "hex", "comments"} {
+		docs = append(docs, &c10Doc{Name: fmt.Sprintf("gen:bigobj-%s-%d", kind, nlit), Data: bigObjectDoc(kind, nlit), Class: "bigobj"})
+	}
 	big := 10_000
 	if !quick {
 		big = 100_000
@@ -419,6 +480,41 @@ func c10Docs(repo string, quick bool, seed int64) []*c10Doc {
 		&c10Doc{Name: fmt.Sprintf("gen:big-broken-%d", big), Data: bd.broken(), Class: "big"},
 	)
 	return docs
+}
+
+// bigObjectDoc returns a small document with one huge object hanging off the catalog: an array of n string literals
+// followed by a comment right before endobj, an array of n hex strings, or a dictionary whose entries are separated
+// by n comment lines.
+func bigObjectDoc(kind string, n int) []byte {
+	d := &xdoc{}
+	cat, pages, _ := d.basePages(1)
+	var sb strings.Builder
+	switch kind {
+	case "literals":
+		sb.WriteString("[")
+		for i := 0; i < n; i++ {
+			sb.WriteString("(a) ")
+		}
+		sb.WriteString("]\n% generated names")
+	case "hex":
+		sb.WriteString("[")
+		for i := 0; i < n; i++ {
+			sb.WriteString("<6162> ")
+		}
+		sb.WriteString("<" + strings.Repeat("61", n) + ">]")
+	case "comments":
+		sb.WriteString("<<")
+		for i := 0; i < n; i++ {
+			if i%1000 == 0 {
+				fmt.Fprintf(&sb, " /K%d (v)\n", i)
+			}
+			sb.WriteString("% c\n")
+		}
+		sb.WriteString(">>")
+	}
+	o := d.add(sb.String())
+	d.setCatalog(cat, pages, fmt.Sprintf("/VerifBig %d 0 R", o))
+	return d.classic()
 }
 
 // schedule returns the operation indexes after which to cancel.
@@ -461,7 +557,7 @@ func c10Main() {
 	all := h.ArgInt("--all", 600)      // documents with at most this many operations get every j
 	extra := h.ArgInt("--extra", 40)   // sampled j for larger documents
 	timers := h.ArgInt("--timers", 12) // timer runs per document
-	confirm := h.Arg("--confirm")      // "doc|delayus": re-measure one timer schedule three times
+	confirm := h.Arg("--confirm")      // "doc|mode|j|delay": re-measure one schedule three times
 	runtime.LockOSThread()             // baselines and timer runs measure the CPU clock of this thread
 	docs := c10Docs(repo, quick, seed)
 	w := h.NewW(out)
@@ -480,16 +576,19 @@ func c10Main() {
 		}
 	}
 	if confirm != "" {
-		parts := strings.SplitN(confirm, "|", 2)
-		var delay int
-		fmt.Sscanf(parts[1], "%d", &delay)
+		parts := strings.SplitN(confirm, "|", 4) // doc|mode|j|delay
+		var j, dl int
+		fmt.Sscanf(parts[2], "%d", &j)
+		fmt.Sscanf(parts[3], "%d", &dl)
 		for i, d := range docs {
 			if d.Name != parts[0] {
 				continue
 			}
 			for k := 0; k < 3; k++ {
+				runtime.GC() // a collection that starts during the measured run would be charged to the reader's thread
 				bases[i] = c10Baseline(d)
-				put(c10Run(d, &bases[i], "timer", delay))
+				runtime.GC()
+				put(c10Run(d, &bases[i], parts[1], j, dl))
 			}
 		}
 		h.Summary(map[string]any{"confirm": confirm})
@@ -514,8 +613,9 @@ func c10Main() {
 		wg.Add(1)
 		go func() {
 			defer wg.Done()
+			runtime.LockOSThread() // the CPU clock of this thread measures what a read burns after its cancellation
 			for jb := range ch {
-				put(c10Run(docs[jb.di], &bases[jb.di], jb.mode, jb.j))
+				put(c10Run(docs[jb.di], &bases[jb.di], jb.mode, jb.j, 0))
 			}
 		}()
 	}
@@ -525,7 +625,7 @@ func c10Main() {
 	close(ch)
 	wg.Wait()
 	// timer mode: sequential (timing), after the parallel part
-	nTimer := 0
+	nTimer, nGap := 0, 0
 	for i, d := range docs {
 		rng := rand.New(rand.NewSource(seed*7919 + int64(i)))
 		for k := 0; k < timers; k++ {
@@ -533,8 +633,16 @@ func c10Main() {
 			if k%3 == 2 { // early cancellations: the xref phase is short
 				delay = 1 + rng.Intn(bases[i].fullUs/8+1)
 			}
-			put(c10Run(d, &bases[i], "timer", delay))
+			put(c10Run(d, &bases[i], "timer", delay, 0))
 			nTimer++
+		}
+		// cancellations inside the longest stretches of pure computation (no input operation): 10%, 30% and 60% into
+		// the stretch that follows operation j of the uncancelled read
+		for _, g := range bases[i].gaps {
+			for _, pct := range []int{10, 30, 60} {
+				put(c10Run(d, &bases[i], "gap", g.j, g.us*pct/100))
+				nGap++
+			}
 		}
 	}
 	// the file variant: already cancelled context
@@ -572,6 +680,6 @@ func c10Main() {
 	for i, d := range docs {
 		dl = append(dl, map[string]any{"doc": d.Name, "size": len(d.Data), "n": bases[i].n, "fullus": bases[i].fullUs, "fullcpu": bases[i].fullCpu, "ok": !strings.HasPrefix(bases[i].digest, "err:")})
 	}
-	h.Summary(map[string]any{"docs": dl, "records": w.N, "phases": phaseSeen, "timer": nTimer})
+	h.Summary(map[string]any{"docs": dl, "records": w.N, "phases": phaseSeen, "timer": nTimer, "gap": nGap})
 	_ = io.EOF
 }
